@@ -79,7 +79,7 @@ fn mk_export(dir: &str, sizes: &[u64]) {
     }
 }
 
-fn mk_fs(dir: &str, seal: bool, no_open: bool, adio: bool) -> PassthroughFs<()> {
+fn mk_fs(dir: &str, seal: bool, no_open: bool, adio: bool, second_session: bool) -> PassthroughFs<()> {
     let cfg = Config {
         root_dir: dir.to_string(),
         seal_size: seal,
@@ -95,6 +95,12 @@ fn mk_fs(dir: &str, seal: bool, no_open: bool, adio: bool) -> PassthroughFs<()> 
         cap |= FsOptions::ZERO_MESSAGE_OPEN;
     }
     fs.init(cap).unwrap();
+    if second_session {
+        // the client went away and came back (guest reboot / remount): DESTROY, then INIT again on
+        // the same server object; the export must be sealed in the second session as in the first
+        fs.destroy();
+        fs.init(cap).unwrap();
+    }
     fs
 }
 
@@ -113,9 +119,9 @@ struct Side {
 }
 
 impl Side {
-    fn new(dir: &str, sizes: &[u64], seal: bool, no_open: bool, adio: bool) -> Side {
+    fn new(dir: &str, sizes: &[u64], seal: bool, no_open: bool, adio: bool, second_session: bool) -> Side {
         mk_export(dir, sizes);
-        let fs = mk_fs(dir, seal, no_open, adio);
+        let fs = mk_fs(dir, seal, no_open, adio, second_session);
         let mut inodes = HashMap::new();
         let ctx = Context::default();
         for i in 0..sizes.len() {
@@ -304,11 +310,12 @@ fn probe(tmp: &str) -> Probe {
     Probe { dio, fal: fal.join(",") }
 }
 
-fn run_case(out: &mut Out, tmp: &str, id: u64, pr: &Probe, seal: bool, no_open: bool, adio: bool, sizes: &[u64],
+#[allow(clippy::too_many_arguments)]
+fn run_case(out: &mut Out, tmp: &str, id: u64, pr: &Probe, seal: bool, no_open: bool, adio: bool, re: bool, sizes: &[u64],
             gen: Option<(&mut Prng, u64)>, ops_in: Option<Vec<String>>) {
     let dir = format!("{}/c{}", tmp, id);
-    let mut a = Side::new(&format!("{}/a", dir), sizes, seal, no_open, adio);
-    let mut twin = if seal { Some(Side::new(&format!("{}/t", dir), sizes, false, no_open, adio)) } else { None };
+    let mut a = Side::new(&format!("{}/a", dir), sizes, seal, no_open, adio, re);
+    let mut twin = if seal { Some(Side::new(&format!("{}/t", dir), sizes, false, no_open, adio, re)) } else { None };
     let nfiles = sizes.len();
     let mut ops: Vec<String> = Vec::new();
     let mut outs: Vec<String> = Vec::new();
@@ -321,7 +328,7 @@ fn run_case(out: &mut Out, tmp: &str, id: u64, pr: &Probe, seal: bool, no_open: 
         let w = within(&op, cur, &exists);
         let before_handles = a.opened.len();
         // breadcrumb: the history up to and including this request, should the process die in it
-        fbrh::util::crumb(&format!("seal={} no={} adio={} dio={} files={} fal={} ops={}{}{}", seal as u8, no_open as u8, adio as u8, pr.dio,
+        fbrh::util::crumb(&format!("seal={} no={} adio={} re={} dio={} files={} fal={} ops={}{}{}", seal as u8, no_open as u8, adio as u8, re as u8, pr.dio,
             sizes.iter().map(|s| s.to_string()).collect::<Vec<_>>().join(","), pr.fal, ops.join(";"), if ops.is_empty() { "" } else { ";" }, op));
         let r = a.exec(&op, nfiles, no_open);
         if r == "skip" {
@@ -437,7 +444,7 @@ fn run_case(out: &mut Out, tmp: &str, id: u64, pr: &Probe, seal: bool, no_open: 
         }
     }
     let szs: Vec<String> = sizes.iter().map(|s| s.to_string()).collect();
-    let line = format!("seal={} no={} adio={} dio={} files={} fal={} ops={}", seal as u8, no_open as u8, adio as u8, pr.dio, szs.join(","), pr.fal, ops.join(";"));
+    let line = format!("seal={} no={} adio={} re={} dio={} files={} fal={} ops={}", seal as u8, no_open as u8, adio as u8, re as u8, pr.dio, szs.join(","), pr.fal, ops.join(";"));
     let mut seen = std::collections::HashSet::new();
     for (key, what) in &oracle {
         if seen.insert(key.clone()) {
@@ -489,7 +496,7 @@ fn main() {
             let sizes: Vec<u64> = kv.get("files").copied().unwrap_or("").split(',').filter_map(|s| s.parse().ok()).collect();
             let ops: Vec<String> = kv.get("ops").copied().unwrap_or("").split(';').filter(|s| !s.is_empty()).map(|s| s.to_string()).collect();
             run_case(&mut out, &tmp.0, i as u64, &pr, kv.get("seal").copied() != Some("0"), kv.get("no").copied() == Some("1"),
-                     kv.get("adio").copied() != Some("0"), &sizes, None, Some(ops));
+                     kv.get("adio").copied() != Some("0"), kv.get("re").copied() == Some("1"), &sizes, None, Some(ops));
         }
         out.finish();
         return;
@@ -501,7 +508,8 @@ fn main() {
         let adio = i % 16 != 5;
         let k = 3 + r.below(4) as usize;
         let sizes: Vec<u64> = (0..k).map(|_| *r.pick(&SIZES)).collect();
-        run_case(&mut out, &tmp.0, i, &pr, seal, no_open, adio, &sizes, Some((&mut r, i % 128)), None);
+        // one case in five runs in the client's second session (INIT, DESTROY, INIT on the same server)
+        run_case(&mut out, &tmp.0, i, &pr, seal, no_open, adio, i % 5 == 3, &sizes, Some((&mut r, i % 128)), None);
     }
     out.finish();
 }
